@@ -78,7 +78,7 @@ def run(ctx):
                     "get_logs refuses on a condition the contract does not give (`%s`): every range of at most 6 blocks is answered" % cond)
     R.ok(1, sample={"rule": "GUARD", "fn": "get_logs", "own_refusals": "range test only"})
     if g and scans:
-        R.ob(fn.dominates(g[0], scans[0].bb), "DOM-before", scans[0].where(), "DOM-before|get_logs|range<scan",
+        R.ob(fn.sdominates(g[0], scans[0].bb), "DOM-before", scans[0].where(), "DOM-before|get_logs|range<scan",
              "the range check does not dominate the scan", sample={"rule": "DOM-before", "a": "range check", "b": "get_range"})
     if scans:
         c = scans[0]
@@ -238,7 +238,17 @@ def run(ctx):
                             tr = (cc.trait or "")
                             if tr.endswith("Iterator") or tr.endswith("IntoIterator") or tr.endswith("DoubleEndedIterator"):
                                 n_conv += 1
-                                R.ob((cc.method or "") in LENGTH_PRESERVING, "WIRE", cc.where(), "WIRE|eth_getLogs|topics-positional:%s" % (cc.method or "?"),
+                                okc = (cc.method or "") in LENGTH_PRESERVING
+                                if (cc.method or "") == "next":
+                                    # a hand-written `for x in xs { out.push(f(x)) }`: one entry per position iff exactly one push
+                                    # sits in the loop this `next` drives and no iteration can go round without passing it
+                                    import looprule as _LR
+                                    lp = [(h_, bd_) for (h_, bd_, _bk) in _LR.natural_loops(b) if cc.bb in bd_]
+                                    if lp:
+                                        h_, bd_ = min(lp, key=lambda x: len(x[1]))
+                                        ps = [p_ for p_ in b.calls() if (p_.method or "") == "push" and p_.bb in bd_ and not b.is_cleanup(p_.bb)]
+                                        okc = len(ps) == 1 and _LR.every_cycle_passes(b, ps[0].bb)
+                                R.ob(okc, "WIRE", cc.where(), "WIRE|eth_getLogs|topics-positional:%s" % (cc.method or "?"),
                                      "the request's topic list passes through `%s` on its way to get_logs: entries can be dropped, added or reordered, so "
                                      "later positions are matched against the wrong topic" % (cc.method or "?"),
                                      sample={"rule": "WIRE", "fn": b.name[-50:], "adapter": cc.method})
